@@ -11,6 +11,7 @@ import (
 func init() {
 	vfRegister("VfC06_doModify", VfC06_doModify)
 	vfRegister("VfC06_handover", VfC06_handover)
+	vfRegister("VfC06_halfClose", VfC06_halfClose)
 }
 
 func vfDrain(resCh chan *spb.ModifyResponse, errCh chan error) (results []*spb.AFTResult, nerr int) {
@@ -156,5 +157,26 @@ func VfC06_handover() {
 	for _, r := range results {
 		vfAssertK(r.Id == 1, "C06:result-id-was-sent-on-this-stream", "KF-C06-held-op-answered-on-new-primary-stream", true)
 	}
+	vfReach("end")
+}
+
+// VfC06_halfClose: a client sends its session parameters, an election id and one
+// operation and half-closes at once; every answer must have been written to the
+// stream when the RPC returns - for every schedule of the RPC's goroutines within
+// the context bound.
+func VfC06_halfClose() {
+	s := &Server{cs: map[string]*clientState{}, masterRIB: rib0()}
+	id := &spb.Uint128{High: 1, Low: 5}
+	st := &vfModStream{msgs: []*spb.ModifyRequest{
+		vfParamsMsg(),
+		{ElectionId: id},
+		{Operation: []*spb.AFTOperation{vfNHOp(1, DefaultNetworkInstanceName, 1, id)}},
+	}}
+	vfSched(2)
+	err := s.Modify(st)
+	vfSched(0)
+	n := len(st.sent) // what the stream carried when the RPC returned
+	vfAssert(err == nil, "C06:clean-session-ends-ok")
+	vfAssert(n == 3, "C06:every-answer-written-before-the-rpc-returns")
 	vfReach("end")
 }
